@@ -26,17 +26,19 @@ type Profile struct {
 	MemoSplice                                                                         int  // percent of grammars with a re-enter-after-overwrite choice (memo splice)
 	RefHeavy                                                                           bool // rule bodies are sequences of references and captures
 	Dispatch                                                                           int  // percent of choices built as first-character dispatch (what -switch rewrites)
+	StringSplice                                                                       int  // percent of grammars with a quoted-text idiom  q <(!q .)*> q {action}: a capture over arbitrary characters
+	KeywordSplice                                                                      int  // percent of grammars with the keyword / identifier idiom  !Keyword Letter+  (Keyword used once or twice)
 	ExtremeSplice                                                                      int  // percent of grammars with a rule that can never succeed or never fail, called where that decides the parse
 }
 
 var Profiles = map[string]Profile{
-	"plain":      {Name: "plain", ExtremeSplice: 15, WUntil: 3, ListSplice: 20, MinRules: 2, MaxRules: 6, Depth: 3, AltMin: 2, AltMax: 4, SeqMax: 4, WTerm: 22, WSeq: 20, WAlt: 18, WOpt: 6, WStar: 6, WPlus: 6, WAnd: 4, WNot: 4, WCap: 6, WRef: 8, WAct: 6, WPred: 2, WState: 1, Hostile: 8, Newline: 2},
-	"switchy":    {Name: "switchy", ExtremeSplice: 12, Dispatch: 60, RecSplice: 40, MinRules: 2, MaxRules: 6, Depth: 3, AltMin: 3, AltMax: 6, SeqMax: 3, WTerm: 22, WSeq: 16, WAlt: 30, WOpt: 6, WStar: 5, WPlus: 4, WAnd: 5, WNot: 5, WCap: 4, WRef: 10, WAct: 4, WPred: 1, WState: 0, Hostile: 6, Newline: 1},
-	"backtracky": {Name: "backtracky", ExtremeSplice: 10, WUntil: 8, ListSplice: 20, MemoSplice: 50, CaptureOnly: 35, MinRules: 2, MaxRules: 5, Depth: 3, AltMin: 2, AltMax: 4, SeqMax: 4, WTerm: 18, WSeq: 22, WAlt: 22, WOpt: 5, WStar: 5, WPlus: 4, WAnd: 6, WNot: 4, WCap: 10, WRef: 12, WAct: 10, WPred: 1, WState: 0, Hostile: 3, Newline: 1, SharedPrefix: 60},
-	"deep":       {Name: "deep", ExtremeSplice: 10, WUntil: 4, CaptureOnly: 10, MinRules: 3, MaxRules: 7, Depth: 4, AltMin: 2, AltMax: 3, SeqMax: 3, WTerm: 14, WSeq: 22, WAlt: 12, WOpt: 6, WStar: 6, WPlus: 6, WAnd: 2, WNot: 2, WCap: 14, WRef: 18, WAct: 8, WPred: 1, WState: 0, Hostile: 10, Newline: 2},
-	"erry":       {Name: "erry", ExtremeSplice: 8, WUntil: 4, RefHeavy: true, MinRules: 4, MaxRules: 7, Depth: 3, AltMin: 2, AltMax: 3, SeqMax: 5, WTerm: 14, WSeq: 30, WAlt: 10, WOpt: 6, WStar: 5, WPlus: 6, WAnd: 2, WNot: 2, WCap: 14, WRef: 30, WAct: 2, WPred: 1, WState: 0, Hostile: 15, Newline: 20},
-	"actiony":    {Name: "actiony", ExtremeSplice: 12, WUntil: 8, ListSplice: 40, CaptureOnly: 10, MinRules: 2, MaxRules: 5, Depth: 3, AltMin: 2, AltMax: 3, SeqMax: 5, WTerm: 14, WSeq: 26, WAlt: 14, WOpt: 8, WStar: 8, WPlus: 8, WAnd: 5, WNot: 3, WCap: 16, WRef: 12, WAct: 24, WPred: 1, WState: 0, Hostile: 4, Newline: 2, SharedPrefix: 40},
-	"liney":      {Name: "liney", ExtremeSplice: 10, WUntil: 6, MinRules: 2, MaxRules: 5, Depth: 3, AltMin: 2, AltMax: 4, SeqMax: 5, WTerm: 26, WSeq: 24, WAlt: 14, WOpt: 6, WStar: 6, WPlus: 6, WAnd: 3, WNot: 3, WCap: 6, WRef: 8, WAct: 3, WPred: 1, WState: 0, Hostile: 25, Newline: 25},
+	"plain":      {Name: "plain", StringSplice: 15, KeywordSplice: 15, ExtremeSplice: 15, WUntil: 3, ListSplice: 20, MinRules: 2, MaxRules: 6, Depth: 3, AltMin: 2, AltMax: 4, SeqMax: 4, WTerm: 22, WSeq: 20, WAlt: 18, WOpt: 6, WStar: 6, WPlus: 6, WAnd: 4, WNot: 4, WCap: 6, WRef: 8, WAct: 6, WPred: 2, WState: 1, Hostile: 8, Newline: 2},
+	"switchy":    {Name: "switchy", StringSplice: 10, KeywordSplice: 25, ExtremeSplice: 12, Dispatch: 60, RecSplice: 40, MinRules: 2, MaxRules: 6, Depth: 3, AltMin: 3, AltMax: 6, SeqMax: 3, WTerm: 22, WSeq: 16, WAlt: 30, WOpt: 6, WStar: 5, WPlus: 4, WAnd: 5, WNot: 5, WCap: 4, WRef: 10, WAct: 4, WPred: 1, WState: 0, Hostile: 6, Newline: 1},
+	"backtracky": {Name: "backtracky", StringSplice: 10, KeywordSplice: 15, ExtremeSplice: 10, WUntil: 8, ListSplice: 20, MemoSplice: 50, CaptureOnly: 35, MinRules: 2, MaxRules: 5, Depth: 3, AltMin: 2, AltMax: 4, SeqMax: 4, WTerm: 18, WSeq: 22, WAlt: 22, WOpt: 5, WStar: 5, WPlus: 4, WAnd: 6, WNot: 4, WCap: 10, WRef: 12, WAct: 10, WPred: 1, WState: 0, Hostile: 3, Newline: 1, SharedPrefix: 60},
+	"deep":       {Name: "deep", StringSplice: 10, KeywordSplice: 10, ExtremeSplice: 10, WUntil: 4, CaptureOnly: 10, MinRules: 3, MaxRules: 7, Depth: 4, AltMin: 2, AltMax: 3, SeqMax: 3, WTerm: 14, WSeq: 22, WAlt: 12, WOpt: 6, WStar: 6, WPlus: 6, WAnd: 2, WNot: 2, WCap: 14, WRef: 18, WAct: 8, WPred: 1, WState: 0, Hostile: 10, Newline: 2},
+	"erry":       {Name: "erry", StringSplice: 10, KeywordSplice: 10, ExtremeSplice: 8, WUntil: 4, RefHeavy: true, MinRules: 4, MaxRules: 7, Depth: 3, AltMin: 2, AltMax: 3, SeqMax: 5, WTerm: 14, WSeq: 30, WAlt: 10, WOpt: 6, WStar: 5, WPlus: 6, WAnd: 2, WNot: 2, WCap: 14, WRef: 30, WAct: 2, WPred: 1, WState: 0, Hostile: 15, Newline: 20},
+	"actiony":    {Name: "actiony", StringSplice: 20, KeywordSplice: 10, ExtremeSplice: 12, WUntil: 8, ListSplice: 40, CaptureOnly: 10, MinRules: 2, MaxRules: 5, Depth: 3, AltMin: 2, AltMax: 3, SeqMax: 5, WTerm: 14, WSeq: 26, WAlt: 14, WOpt: 8, WStar: 8, WPlus: 8, WAnd: 5, WNot: 3, WCap: 16, WRef: 12, WAct: 24, WPred: 1, WState: 0, Hostile: 4, Newline: 2, SharedPrefix: 40},
+	"liney":      {Name: "liney", StringSplice: 20, KeywordSplice: 10, ExtremeSplice: 10, WUntil: 6, MinRules: 2, MaxRules: 5, Depth: 3, AltMin: 2, AltMax: 4, SeqMax: 5, WTerm: 26, WSeq: 24, WAlt: 14, WOpt: 6, WStar: 6, WPlus: 6, WAnd: 3, WNot: 3, WCap: 6, WRef: 8, WAct: 3, WPred: 1, WState: 0, Hostile: 25, Newline: 25},
 }
 
 // ProfileMix is the fixed mix of a lab batch (cycled through by grammar index).
@@ -355,16 +357,23 @@ func (s *genState) expr(i, depth int, must, guarded bool) *Expr {
 			e.EmptyLast = true
 		}
 		return e
-	case "opt":
-		return Un(KOpt, s.expr(i, depth-1, true, guarded))
-	case "star":
-		return Un(KStar, s.expr(i, depth-1, true, guarded))
-	case "plus":
-		return Un(KPlus, s.expr(i, depth-1, true, guarded))
-	case "and":
-		return Un(KAnd, s.expr(i, depth-1, false, guarded))
-	case "not":
-		return Un(KNot, s.expr(i, depth-1, false, guarded))
+	case "opt", "star", "plus", "and", "not":
+		// the operand of a prefix or suffix operator is, as in hand-written grammars
+		// (!Keyword, Spacing?, Item*), often just the name of a rule
+		unary := map[string]Kind{"opt": KOpt, "star": KStar, "plus": KPlus, "and": KAnd, "not": KNot}[kind]
+		must := kind == "opt" || kind == "star" || kind == "plus"
+		if !s.noNames && s.pct(30, "bareref") {
+			j := -1
+			if guarded {
+				j = rapid.IntRange(0, s.n-1).Draw(t, "barerefg")
+			} else if i+1 < s.n {
+				j = rapid.IntRange(i+1, s.n-1).Draw(t, "barerefu")
+			}
+			if j >= 0 && (!must || (s.known[j] && s.ruleMust[j])) {
+				return Un(unary, Ref(j))
+			}
+		}
+		return Un(unary, s.expr(i, depth-1, must, guarded))
 	case "cap":
 		if !must && !s.noNames && s.pct(25, "nullcap") {
 			// a capture that may match the empty string, after a non-empty one, each followed
@@ -708,6 +717,115 @@ func (s *genState) recSplice(g *Grammar) {
 	s.rules = g.Rules
 }
 
+// stringSplice adds the quoted-text idiom of string literals and comments:
+//
+//	Str <- q <(!q .)*> q { action }      (also: [^q]* for the body, an escape alternative)
+//
+// the one place where real grammars capture arbitrary characters - multi-byte runes, NUL,
+// whatever an invalid byte decodes to - and hand them to an action.
+func (s *genState) stringSplice(g *Grammar) {
+	t := s.t
+	q := rapid.SampledFrom([]rune{'"', '\'', '`', '|', 'd'}).Draw(t, "strq")
+	lit := func(r rune) *Expr { return &Expr{K: KLit, Runes: []rune{r}} }
+	var body *Expr
+	switch rapid.IntRange(0, 3).Draw(t, "strbody") {
+	case 0:
+		body = Un(KStar, Seq(Un(KNot, lit(q)), &Expr{K: KDot}))
+	case 1:
+		body = Un(KStar, &Expr{K: KClass, Neg: true, Items: []Item{{q, q}}})
+	case 2:
+		body = Un(KStar, &Expr{K: KAlt, Kids: []*Expr{Seq(lit('\\'), &Expr{K: KDot}), Seq(Un(KNot, lit(q)), &Expr{K: KDot})}})
+	default:
+		body = Un(KPlus, &Expr{K: KClass, Neg: true, Items: []Item{{q, q}, {'\n', '\n'}}})
+	}
+	base := len(g.Rules)
+	str := Seq(lit(q), Un(KCap, body), lit(q), &Expr{K: KAct})
+	if s.pct(30, "strinner") {
+		// the action sits inside the quotes, and a second capture follows
+		str = Seq(lit(q), Un(KCap, body), &Expr{K: KAct}, lit(q), Un(KCap, Un(KOpt, lit('a'))), &Expr{K: KAct})
+	}
+	g.Rules = append(g.Rules, &Rule{Name: fmt.Sprintf("R%d", base), Body: str})
+	var call *Expr
+	switch rapid.IntRange(0, 2).Draw(t, "strcall") {
+	case 0:
+		call = Ref(base)
+	case 1:
+		call = Seq(Ref(base), Un(KStar, Seq(lit(' '), Ref(base))))
+	default:
+		call = Seq(Un(KOpt, lit('a')), Ref(base), Un(KNot, &Expr{K: KDot}))
+	}
+	g.Rules[0].Body = &Expr{K: KAlt, Kids: []*Expr{call, g.Rules[0].Body}}
+	s.ruleMust = append(s.ruleMust, true)
+	s.known = append(s.known, true)
+	s.n = len(g.Rules)
+	s.rules = g.Rules
+}
+
+// keywordSplice adds the idiom hand-written grammars use most:  Ident <- !Keyword Letter+  with
+// Keyword <- ('ab' / 'abc' ...) !Letter.  The keyword rule is named once (what -inline expands
+// in place) or twice, fails after having read a prefix on most identifiers, and is guarded by
+// & or ! so that nothing it read or recorded may survive.
+func (s *genState) keywordSplice(g *Grammar) {
+	t := s.t
+	lit := func(rs ...rune) *Expr { return &Expr{K: KLit, Runes: rs} }
+	letter := func() *Expr { return &Expr{K: KClass, Items: []Item{{'a', 'd'}}} }
+	base := len(g.Rules)
+	k, id := base, base+1
+	word := func(label string) *Expr {
+		n := rapid.IntRange(2, 3).Draw(t, label)
+		e := &Expr{K: KLit}
+		for i := 0; i < n; i++ {
+			e.Runes = append(e.Runes, rapid.SampledFrom(baseAlpha).Draw(t, label+"r"))
+		}
+		return e
+	}
+	var kbody *Expr
+	switch rapid.IntRange(0, 3).Draw(t, "kwshape") {
+	case 0:
+		kbody = Seq(word("kw1"), Un(KNot, letter()))
+	case 1:
+		kbody = Seq(&Expr{K: KAlt, Kids: []*Expr{word("kw1"), word("kw2")}}, Un(KNot, letter()))
+	case 2:
+		kbody = Seq(Un(KCap, word("kw1")), Un(KNot, letter()))
+	default:
+		kbody = Seq(word("kw1"), &Expr{K: KAct}, Un(KNot, letter()))
+	}
+	guard := KNot
+	if s.pct(20, "kwand") {
+		guard = KAnd
+	}
+	var ident *Expr
+	switch rapid.IntRange(0, 2).Draw(t, "idshape") {
+	case 0:
+		ident = Seq(Un(guard, Ref(k)), Un(KPlus, letter()))
+	case 1:
+		ident = Seq(Un(guard, Ref(k)), Un(KCap, Un(KPlus, letter())), &Expr{K: KAct})
+	default:
+		ident = Seq(Un(guard, Ref(k)), letter(), Un(KStar, letter()))
+	}
+	g.Rules = append(g.Rules, &Rule{Name: fmt.Sprintf("R%d", k), Body: kbody}, &Rule{Name: fmt.Sprintf("R%d", id), Body: ident})
+	tails := rapid.Permutation([]rune{'1', '2', ';', ' '}).Draw(t, "kwtails")
+	alt := &Expr{K: KAlt}
+	if s.pct(35, "kwtwice") {
+		// the keyword itself is also a statement: the rule is named twice
+		alt.Kids = append(alt.Kids, Seq(Ref(k), lit(tails[0])))
+	}
+	switch rapid.IntRange(0, 2).Draw(t, "kwlist") {
+	case 0:
+		alt.Kids = append(alt.Kids, Seq(Ref(id), lit(tails[1])))
+	case 1:
+		alt.Kids = append(alt.Kids, Seq(Un(KPlus, Seq(Ref(id), lit(tails[1]))), Un(KNot, &Expr{K: KDot})))
+	default:
+		alt.Kids = append(alt.Kids, Seq(Ref(id), Un(KStar, Seq(lit(tails[1]), Ref(id)))))
+	}
+	alt.Kids = append(alt.Kids, g.Rules[0].Body)
+	g.Rules[0].Body = alt
+	s.ruleMust = append(s.ruleMust, true, true)
+	s.known = append(s.known, true, true)
+	s.n = len(g.Rules)
+	s.rules = g.Rules
+}
+
 // extremeSplice adds a rule X that can never succeed or can never fail - the classes a
 // generator reasons about when it drops failure branches ("always succeeds") - reached
 // through zero to two wrappers, and calls it in front of the first rule's old body where
@@ -844,6 +962,12 @@ func WellFormedGrammar(t *rapid.T, p Profile) *Grammar {
 	if s.pct(p.ExtremeSplice, "extremesplice") {
 		s.extremeSplice(g)
 	}
+	if s.pct(p.KeywordSplice, "keywordsplice") {
+		s.keywordSplice(g)
+	}
+	if s.pct(p.StringSplice, "stringsplice") {
+		s.stringSplice(g)
+	}
 	// reachability: append references to unreachable rules to the first rule
 	reach := g.Reachable()
 	var tail []*Expr
@@ -944,9 +1068,18 @@ func SamplePumped(g *Grammar, entry int, c Chooser, maxLen, loopMax int) []rune 
 				ev(k, d)
 			}
 		case KAnd, KNot:
-			// usually contribute nothing; sometimes the text the operand would (partly) match
-			if c.Intn(3) == 0 {
+			// usually contribute nothing; sometimes the text the operand would match, and
+			// sometimes a proper prefix of it: a near miss, on which the operand fails only
+			// after having read something
+			switch c.Intn(5) {
+			case 0:
 				ev(e.Kids[0], d+1)
+			case 1:
+				before := len(out)
+				ev(e.Kids[0], d+1)
+				if n := len(out) - before; n >= 2 {
+					out = out[:before+1+c.Intn(n-1)]
+				}
 			}
 		case KAlt:
 			n := len(e.Kids)
